@@ -107,7 +107,12 @@ func (k *Keys) readInputFiltered() (keys []byte, err error) {
 	cursor, keys := k.extractCursorPos(buf[:read])
 
 	if len(cursor) > 0 {
-		k.cursor <- cursor
+		// Hand the report to whoever asked for it. When nobody did (the
+		// sequence was typed, or arrives late), drop it instead of blocking.
+		select {
+		case k.cursor <- cursor:
+		default:
+		}
 	}
 
 	return keys, nil
